@@ -16,7 +16,7 @@ func init() {
 		Level: "Structural necessary conditions of 'one covering shard per point, no shard with matches skipped': shard-group membership is the half-open interval start ≤ t < end (and the overlap test its closed/open counterpart), the group lookup additionally requires engine kind, not deleted, not truncated-before-t; " +
 			"every hash-sharding site hashes through HashID into ShardFor with the index domain chosen by the same InitNumOfShards split on the write and on the read side (frozen site table); " +
 			"shard pruning by tag equalities is sound under OR: an unconstrained operand (nil = all shards) makes the disjunction unconstrained; the per-group shard-key buffer is reset for every tag group. " +
-			"NOT decided: equivalence of pruning and full scan for all predicates (value-level), range-sharding key arithmetic, the record-writer path for measurements with a fixed shard count.",
+			"the write path reuses the previous row's shard group only for a time inside the group's half-open span; NOT decided: equivalence of pruning and full scan for all predicates (value-level), range-sharding key arithmetic, the record-writer path for measurements with a fixed shard count.",
 		Assumptions: commonAssumptions,
 		Technique:   "static analysis: predicate truth-table equivalence over normalised comparisons, branch-returns contracts on case-clause regions, sibling call-site tables, loop-carried buffer reset ordering",
 		Rules:       "C11.R1 R2 R3 R4 R5 R6 R7",
